@@ -340,13 +340,13 @@ class World:
         finally:
             self.fault_at = None
 
-    def real_stale(self, fresh):
+    def real_stale(self, fresh, workers=None):
         from uberjob._transformations.caching import _get_stale_nodes
         from uberjob._util.retry import identity
         from uberjob.progress._null_progress_observer import NullProgressObserver
         log, self.log = self.log, []
         try:
-            s = _get_stale_nodes(self.plan, self.reg, retry=identity, max_workers=self.rng.choice([1, 3]),
+            s = _get_stale_nodes(self.plan, self.reg, retry=identity, max_workers=workers or self.rng.choice([1, 3]),
                                  fresh_time=self.fresh_dt(fresh), progress_observer=NullProgressObserver())
         finally:
             self.log = log
@@ -415,6 +415,17 @@ class Campaign:
         utd, ood = w.up_to_date(sigma, fresh)
         times = [e[1] for e in sigma if e is not None]
         distinct = len(times) == len(set(times))
+        if not w.tainted and distinct:
+            # what _get_stale_nodes itself reports for this store state (a separate call, with its own worker pool)
+            for i, ok in utd.items():
+                if (i in stale_real) == ok:
+                    self.add("C05", "stale-set-differs", "_get_stale_nodes reports node %d as %s; by the stores' modified times it is %s"
+                             % (i, "out of date" if i in stale_real else "up to date", "up to date" if ok else "out of date"),
+                             dict(replay, stale_reported=sorted(stale_real)))
+                    self.add("C03", "stale-set-differs", "_get_stale_nodes reports node %d as %s; by the stores' modified times it is %s"
+                             % (i, "out of date" if i in stale_real else "up to date", "up to date" if ok else "out of date"),
+                             dict(replay, stale_reported=sorted(stale_real)))
+                    break
         if res[0] == "ok" and not w.tainted:
             scr_after = w.scratch(after)
             for i, m in enumerate(w.meta):
@@ -591,10 +602,54 @@ def targeted_histories(ctx, camp):
                 ctx.count("targeted_world", name)
 
 
+def controlled_stale_check(ctx, camp):
+    """The stale check is an engine pass of its own (several workers): fan-in worlds are run while the deterministic scheduler
+    drives its worker threads through aggressive interleavings, at bytecode granularity also inside caching.py; every run is
+    observed like any other (model comparison, from-scratch and exactness monitors)."""
+    import plansched
+    rng = ctx.rng
+    specs = {
+        # S = f(a, b) unstored joins two sources; T = g(S, c) stored joins S and a third source
+        "stale-fan-in": [("source", [], [], False), ("source", [], [], False), ("call", [0, 1], [], False), ("source", [], [], False),
+                         ("call", [2, 3], [], True)],
+        "stale-fan-in-stored": [("source", [], [], False), ("source", [], [], False), ("call", [0], [], True), ("call", [1], [], True),
+                                ("call", [2, 3], [], True), ("source", [], [], False), ("call", [4, 5], [], True)],
+    }
+    for name, spec in specs.items():
+        for trace_caching in (False, True):
+            ctl = plansched.Controlled(stale_check=True, trace_caching=trace_caching)
+            for si in range(ctx.n(6, 60)):
+                w = World(camp.uj, rng, spec=spec)
+                camp.observe_run(w, w.n - 1, None, [name, "build"], workers=1)
+                srcs = [m["store"] for m in w.meta if m["is_src"]]
+                for step in range(3):
+                    w.set_store(rng.choice(srcs), rng.randrange(1, 1000))
+                    sig = w.sigma()
+                    utd, _ = w.up_to_date(sig, None)
+                    with ctl:
+                        for k in range(ctx.n(4, 8)):
+                            ctl.set(plansched.stress_chooser(rng, si + step + k))
+                            got = set(w.real_stale(None, workers=rng.choice([2, 3, 4])))
+                            bad = [i for i, ok in utd.items() if (i in got) == ok]
+                            if bad:
+                                for prop in ("C03", "C05"):
+                                    camp.add(prop, "stale-set-under-interleaving", "under a forced interleaving of the stale check's workers _get_stale_nodes reports "
+                                             "node %d as %s; by the stores' modified times it is %s" % (bad[0], "out of date" if bad[0] in got else "up to date",
+                                                                                                       "up to date" if utd[bad[0]] else "out of date"),
+                                             {"meta": w.meta, "sigma": sig, "stale_reported": sorted(got), "world": name,
+                                              "decisions": ctl.last.sched.decisions[:4000] if ctl.last else None})
+                                break
+                        ctl.set(plansched.stress_chooser(rng, si + step))
+                        camp.observe_run(w, rng.choice([None, w.n - 1]), None, [name, "controlled", si, step], workers=rng.choice([2, 3, 4]))
+                    ctx.case(("controlled-stale-check", name, trace_caching, si, step, tuple(ctl.last.sched.decisions[:200]) if ctl.last else 0), nontrivial=True)
+                    ctx.count("controlled_stale_check", "%s/%s" % (name, "bytecodes of caching.py too" if trace_caching else "engine only"))
+
+
 def history_campaign(ctx, camp, n_worlds, steps, props_cut=True):
     """Random worlds x random histories; every run in the history is observed."""
     rng = ctx.rng
     targeted_histories(ctx, camp)
+    controlled_stale_check(ctx, camp)
     for wi in range(n_worlds):
         w = World(camp.uj, rng, maxn=ctx.n(8, 10), writers=(wi % 5 == 4))
         ctx.count("world_nodes", w.n)
